@@ -137,6 +137,21 @@ def build_harness(release, report):
     return rc == 0
 
 
+def build_repl_binary(report):
+    """C10 speaks about REPL lines: the `xeh` binary itself (src/main.rs + src/repl.rs, glue that no library call reaches) is
+    built from /repo's working tree into the harness's target directory and handed to the harness, which pipes sessions
+    into it and compares them with its mirror of `run_line` (harness/src/props/c10.rs repl_binary)."""
+    tdir = f"{HARNESS}/target/repl"
+    with Lock("cargo"):
+        rc, out = sh(["cargo", "build", "--offline", "--quiet", "--bin", "xeh", "--manifest-path", "/repo/Cargo.toml", "--target-dir", tdir], timeout=3000)
+    if rc != 0:
+        report["repl_binary_build_error"] = out[-3000:]
+        os.environ.pop("VERIF_XEH_BIN", None)
+        return False
+    os.environ["VERIF_XEH_BIN"] = f"{tdir}/debug/xeh"
+    return True
+
+
 def run_cases(pid, seed, n, tier, release, report, tagsuffix="", model=True):
     """emit cases, run driver, diff. returns (stats, disagreements[list], ncases, ops, imp).
     model=False: only the implementation side (harness + oracle) is run — used by the widening search, which looks
@@ -165,7 +180,13 @@ def run_cases(pid, seed, n, tier, release, report, tagsuffix="", model=True):
                                        f"(seed {seed}, tier {tier}); it was last given: {last or '(no progress note)'}")
         return None
     if rc != 0:
-        report["harness_run_error"] = f"rc={rc} (a crash/abort of the implementation process?)\n{out[-2000:]}"
+        last = ""
+        try:
+            last = open(f"{wd}/{pid}.progress").read()[-2000:]
+        except OSError:
+            pass
+        report["harness_run_error"] = (f"rc={rc} (a crash/abort of the implementation process?)\n{out[-2000:]}"
+                                       + (f"\nit was last given: {last}" if last else ""))
         return None
     stats = json.load(open(f"{base}.stats.json"))
     if not model:
@@ -240,6 +261,10 @@ def main():
     violations = []   # (text, replay dict)
     runs = []
     h_ok = build_harness(False, report)
+    if pid == "C10" and h_ok:
+        h_ok = build_repl_binary(report)
+        if not h_ok:
+            report["harness_build_error"] = "the xeh binary did not build: " + report.get("repl_binary_build_error", "")
     n = cfg["n_thorough"] if tier == "thorough" else cfg["n_quick"]
     profiles = [False] + ([True] if tier == "thorough" and cfg.get("release_too", True) and build_harness(True, report) else [])
     total_cases = 0; distinct = set(); hist = {}; oracle_checks = 0; samples = []; disagreements = []; oracle_failures = []; unsupported = 0
@@ -283,8 +308,9 @@ def main():
         return path
     if "harness_run_error" in report:
         # the implementation process died (abort / stack overflow / OOM) — that is itself a C08-style failure of this run
-        hung = "did not terminate" in report["harness_run_error"] and "(no progress note)" not in report["harness_run_error"]
-        path = write_replay("implementation did not terminate on the input named in `detail`" if hung else "implementation process died",
+        hung = ("did not terminate" in report["harness_run_error"] and "(no progress note)" not in report["harness_run_error"]) \
+            or "it was last given: " in report["harness_run_error"]
+        path = write_replay("implementation did not terminate, or its process died, on the input named in `detail`" if hung else "implementation process died",
                             {"detail": report["harness_run_error"]})
         print(f"VIOLATION property={pid} replay={path}" + ("" if hung else " no-failing-input-found")); rc = 1
     if new_of:
